@@ -634,6 +634,13 @@ def run_impl(case, pid):
                             mock.patch.object(env.appzk, 'prune_trace_service_events', lambda *_a: None),
                             mock.patch.object(context, 'GLOBAL', fake_global),
                             mock.patch('time.sleep', _stop)]
+                run.op('mark', 'ok')
+                done = [False]
+
+                def _stop(_secs):       # pylint: disable=function-redefined
+                    done[0] = True
+                    raise _PassDone()
+                patches[-1] = mock.patch('time.sleep', _stop)
                 for p_ in patches:
                     p_.start()
                 try:
@@ -649,6 +656,14 @@ def run_impl(case, pid):
                         p_.stop()
                 run.tags.add('service-pass')
                 stats['phases'] += 1
+                if done[0]:
+                    # the pass reached its sleep: the composition `Archive.runPass` (the order and the
+                    # parameters of the six calls, as the options give them) from the state before the pass
+                    # must end where the real loop ended
+                    run.op('restore', 'ok')
+                    run.op('pass %s %d %d %d %d %d %d' % (nowstr, texp, tbs, fexp, fbs, thist, fhist),
+                           'pass %s' % _dump(env, dec, _View(env, zk)))
+                    run.tags.add('service-pass-complete')
             elif k in SITE:
                 phase, mode = op[:-1], op[-1]
                 stats['phases'] += 1
